@@ -133,6 +133,9 @@ func compareTable(db *MDB, t *MTable, o *obsTable, commit bool) *mismatch {
 		return &mismatch{kind, fmt.Sprintf("table %s: %d rows returned, model has %d%s", t.Name, len(o.Rows), len(t.Rows), firstDiff(t, o))}
 	}
 	for i, r := range t.Rows {
+		if len(o.Rows[i]) != len(r.Vals) {
+			return &mismatch{"value", fmt.Sprintf("table %s row %d: %d values returned, the table has %d columns", t.Name, i, len(o.Rows[i]), len(r.Vals))}
+		}
 		for j := range r.Vals {
 			if !r.Vals[j].Equal(o.Rows[i][j]) {
 				return &mismatch{"value", fmt.Sprintf("table %s row %d column %s: got %s, model has %s", t.Name, i, t.Cols[j].Name, o.Rows[i][j], r.Vals[j])}
